@@ -18,7 +18,10 @@ DTs == {"0.5", "5", "100", "500"}
 NTs == {1, 2, 6}
 QOrders == {3, 4, 5}
 VRatios == {"1.05", "1.2", "1.45"}
-ASSUME PrintT(<<"AUX", NTs, QOrders, VRatios>>)
+\* a settings file may leave the interpolator and/or the order to the packaged defaults; a configuration whose value equals the
+\* default may therefore be WRITTEN without it (same effective configuration, another file)
+DefaultModeGamma == [interp |-> "lsq_poly", order |-> 3]
+ASSUME PrintT(<<"AUX", NTs, QOrders, VRatios, DefaultModeGamma>>)
 VARIABLES cfg
 Configs == [interp : Methods, order : 1..11, nv : NVs, system : SystemsOrNone, tmin : TMins, dt : DTs, lattice : BOOLEAN]
 ValidCfg(c) == Adm(c.interp, c.order, c.nv)
